@@ -43,6 +43,8 @@ import json
 import multiprocessing
 import os
 import pickle
+import shutil
+import tempfile
 import time
 
 from harness import checklib
@@ -56,6 +58,9 @@ CORPUS = os.path.join(checklib.VERIF, "corpus", "core_trace")
 NOOP = b"\x01"
 FOLLOWER, CANDIDATE, LEADER = 0, 1, 2
 LOOP_BUDGET = 3000
+# journal + dump restarts need `sendAppend`/`sendSnapshot` with an explicit commit value (after such a restart
+# the real commit index lags behind the applied index and that lower value travels in the messages)
+ENABLE_DUMP_RESTART = False
 
 
 class Stop(Exception):
@@ -66,25 +71,38 @@ class Stop(Exception):
 # the tracer: real cluster + effect recording + translation
 # ------------------------------------------------------------------------------------------------
 class Tracer(object):
-    def __init__(self, repo, voters, conf, seed, with_monitors=True):
+    def __init__(self, repo, voters, conf, seed, with_monitors=True, observers=(), journal=None):
+        """journal: None (memory journal) | "journal" (file journal) | "dump" (file journal + dump file)"""
         self.repo = repo
         self.voters = list(voters)
+        self.observers = list(observers)
+        self.all = self.voters + self.observers
         self.N = len(self.voters)
-        self.ix = dict((v, k) for k, v in enumerate(self.voters))
+        self.M = len(self.all)
+        self.ix = dict((v, k) for k, v in enumerate(self.all))
         self.conf = dict(conf or {})
         self.seed = seed
-        self.sim = Sim(repo, self.voters, conf=self.conf, seed=seed)
+        self.journal = journal
+        self.tmpdir = None
+        simconf = dict(self.conf)
+        if journal:
+            self.tmpdir = tempfile.mkdtemp(prefix="pso-verif-core-")
+            simconf["useFork"] = False          # dumps are written synchronously, no fork inside the harness
+        self.sim = Sim(repo, self.voters, observers=self.observers, conf=simconf, seed=seed,
+                       journal_dir=self.tmpdir, dump=(journal == "dump"))
         self.Node = self.sim.Node
         self.effects = []
         self.cmdid = {NOOP: 0}
-        self.ghost = dict((v, []) for v in self.voters)      # abstract entries dropped by compaction
+        self.ghost = dict((v, []) for v in self.all)         # abstract entries dropped by compaction
+        self._in_delto = set()
+        self.votes_given = {}                                # (voter, term) -> candidate (across restarts, C07)
         self.snapreg = {}                                    # snapshot blob -> creator's abstract log up to its index
         self.tags = {}                                       # id(msg) -> (msg, model message | None)
         self.chunkbuf = {}
         self.snapbuf = {}
         self.inflight_tagged = 0
         self.events = []                                     # executed events (the schedule)
-        self.lines = ['{"N":%d}' % self.N]                   # driver input
+        self.lines = ['{"N":%d,"M":%d}' % (self.N, self.M)]  # driver input
         self.line_ev = [-1]                                  # event number of every line
         self.expect = {}                                     # line number -> (expected states, nmsgs)
         self.cov = collections.Counter()
@@ -98,7 +116,8 @@ class Tracer(object):
         self.violations = []                                 # (event no, violation dict)
         self._viol_seen = set()
         self.internal = []                                   # harness-side inconsistencies (reported as disagreement)
-        for v in self.voters:
+        self._extra = []                                     # violations seen by the tracer's own monitors (C06/C07/C18)
+        for v in self.all:
             self._hook(v)
         base_apply = self.sim.so.SyncObj._SyncObj__doApplyCommand
 
@@ -140,7 +159,8 @@ class Tracer(object):
         o_add, o_from, o_to, o_clear, o_sci = j.add, j.deleteEntriesFrom, j.deleteEntriesTo, j.clear, j.setRaftCommitIndex
 
         def add(command, idx, term):
-            eff(("add", v, command, idx, term))
+            if v not in self._in_delto:
+                eff(("add", v, command, idx, term))
             return o_add(command, idx, term)
 
         def delete_from(n):
@@ -151,10 +171,15 @@ class Tracer(object):
             dropped = j[:n]
             self.ghost[v].extend(self.abs_entry(e) for e in dropped)
             eff(("delTo", v, n))
-            return o_to(n)
+            self._in_delto.add(v)            # FileJournal.deleteEntriesTo = self.clear() + self.add(...) of the rest
+            try:
+                return o_to(n)
+            finally:
+                self._in_delto.discard(v)
 
         def clear():
-            eff(("clear", v))
+            if v not in self._in_delto:
+                eff(("clear", v))
             return o_clear()
 
         def set_commit(c):
@@ -179,7 +204,7 @@ class Tracer(object):
 
         def serialize(data, sid):
             r = o_ser(data, sid)
-            blob = ser._Serializer__inMemorySerializedData
+            blob = self.blob_of(v)
             k_idx = data[1][1]
             full = self.full_log(v)
             if blob is not None and blob not in self.snapreg:
@@ -190,6 +215,28 @@ class Tracer(object):
 
     def effects_append(self, e):
         self.effects.append(e)
+
+    def blob_of(self, v):
+        """The serialized snapshot node v currently holds (what it would transmit)."""
+        o = self.sim.objs[v]
+        fn = o._SyncObj__conf.fullDumpFile
+        if fn is None:
+            return o._SyncObj__serializer._Serializer__inMemorySerializedData
+        try:
+            with open(fn, "rb") as f:
+                return f.read()
+        except IOError:
+            return None
+
+    def close(self):
+        if self.tmpdir:
+            for o in list(self.sim.objs.values()) + list(getattr(self.sim, "dead", {}).values()):
+                try:
+                    o._SyncObj__raftLog._destroy()
+                except Exception:
+                    pass
+            shutil.rmtree(self.tmpdir, ignore_errors=True)
+            self.tmpdir = None
 
     # -- abstraction -------------------------------------------------------------------------------
     def cid(self, command):
@@ -222,9 +269,10 @@ class Tracer(object):
                 "role": o._SyncObj__raftState,
                 "votes": o._SyncObj__votesCount,
                 "log": self.full_log(v),
-                "commit": o.raftCommitIndex - 1,
+                # after a restart the stored commit index may lag behind the position of the loaded dump
+                "commit": max(o.raftCommitIndex, o.raftLastApplied) - 1,
                 "applied": o.raftLastApplied - 1,
-                "match": [max(mi.get(self.Node(w), 0) - 1, 0) for w in self.voters]}
+                "match": [max(mi.get(self.Node(w), 0) - 1, 0) for w in self.all]}
 
     # -- driver lines ------------------------------------------------------------------------------
     def act(self, a):
@@ -260,6 +308,10 @@ class Tracer(object):
         ia, ib = self.ix[a], self.ix[b]
         t = msg["type"]
         self.cov["sent:" + t] += 1
+        if a in self.observers and t in ("request_vote", "response_vote"):
+            self._extra.append({"signature": "observer:takes-part-in-election",
+                                "what": "read-only node %s sent %s" % (a, t)})
+            return
         if t == "request_vote":
             tag = {"k": "reqVote", "t": msg["term"], "cand": ia, "dst": ib,
                    "li": msg["last_log_index"] - 1, "lt": msg["last_log_term"]}
@@ -268,6 +320,11 @@ class Tracer(object):
                 self.lose(tag)
             return
         if t == "response_vote":
+            prev = self.votes_given.setdefault((a, msg["term"]), b)
+            if prev != b:
+                self._extra.append({"signature": "restart:vote-granted-twice-in-term" if self.sim.generation[a] > 1
+                                    else "election:vote-granted-twice-in-term",
+                                    "what": "voter %s granted its vote in term %d to %s and to %s" % (a, msg["term"], prev, b)})
             tag = {"k": "vote", "t": msg["term"], "voter": ia, "cand": ib}
             if not self._register(msg, tag, up, alive):
                 self.lose(tag)
@@ -371,6 +428,9 @@ class Tracer(object):
                 self._send_effect(ef, ctx)
             elif k == "state":
                 old, new = ef[2], ef[3]
+                if v in self.observers and new != FOLLOWER:
+                    self._extra.append({"signature": "observer:became-candidate-or-leader",
+                                        "what": "read-only node %s changed state %s -> %s" % (v, old, new)})
                 if new == LEADER:
                     expect_noop = True
                     self.cov["real:become-leader"] += 1
@@ -418,7 +478,7 @@ class Tracer(object):
         if kind == "tick":
             v = ev[1]
             o = sim.objs[v]
-            pre_term, pre_commit = o.raftCurrentTerm, o.raftCommitIndex - 1
+            pre_term, pre_commit = o.raftCurrentTerm, max(o.raftCommitIndex, o.raftLastApplied) - 1
             sim.tick(v, ev[2])
             if o.raftCurrentTerm > pre_term:
                 dsts = [self.ix[e[2]] for e in self.effects
@@ -442,23 +502,72 @@ class Tracer(object):
         elif kind == "submit":
             v = ev[1]
             self.submits += 1
+            if v in self.observers:
+                self.cov["observer:submit"] += 1
             sim.submit(v, ev[2], ev[3] if len(ev) > 3 else "add")
             self._translate(v, "submit", None)
         elif kind == "compact":
             sim.compact(ev[1])
+        elif kind == "restart":
+            if not self.journal:
+                raise ValueError("restart of a node without journal is not part of any property")
+            self._restart(ev[1])
         else:
             raise ValueError("unknown event %r" % (ev,))
         self.lines.append('{"q":"state"}')
         self.line_ev.append(len(self.events) - 1)
-        self.expect[len(self.lines) - 1] = ([self.abstract(v) for v in self.voters], self.inflight_tagged)
+        self.expect[len(self.lines) - 1] = ([self.abstract(v) for v in self.all], self.inflight_tagged, self.N)
         if self.with_monitors:
             self._monitors()
         return True
 
+    def _restart(self, v):
+        """kill -9 + start + first tick of a journaled node = ONE model step `restart n c a`:
+        term, vote and log come back from the journal (+ .meta), the applied position from the dump file
+        (loaded by the first tick), the commit index from the .meta file (stored once a second)."""
+        sim = self.sim
+        i = self.ix[v]
+        before_log = self.full_log(v)
+        before_term = sim.objs[v].raftCurrentTerm
+        lost = []
+        for w in self.all:
+            if w != v:
+                lost += list(sim.chan[(v, w)]) + list(sim.chan[(w, v)])
+        sim.kill(v)
+        for m in lost:
+            self.cov["real:message-lost-in-flight"] += 1
+            self.lose(self._untag(m))
+        self.chunkbuf = dict((k, b) for k, b in self.chunkbuf.items() if v not in k)
+        self.snapbuf = dict((k, b) for k, b in self.snapbuf.items() if v not in k)
+        sim.restart(v)
+        self._hook(v)
+        o = sim.objs[v]
+        self.effects[:] = []
+        stored_commit = o.raftCommitIndex
+        sim.tick(v, 0.0)
+        n_apply = len([e for e in self.effects if e[0] == "apply"])
+        loaded = o.raftLastApplied - n_apply            # position of the dump file (1 without one)
+        self.cov["restart:%s" % ("dump-loaded" if loaded > 1 else "from-journal-start")] += 1
+        self.act({"a": "restart", "n": i, "c": max(stored_commit, loaded) - 1, "ap": loaded - 1})
+        self.flags.add("restart")
+        # C06 / C07 statements on the real node (kill between two simulator steps)
+        after_log = self.full_log(v)
+        if after_log[:len(before_log)] != before_log:
+            k = 0
+            while k < len(after_log) and k < len(before_log) and after_log[k] == before_log[k]:
+                k += 1
+            self._extra.append({"signature": "restart:journal-lost-entries",
+                                "what": "node %s held %d entries before the kill, after the restart its log differs from position %d (length %d)"
+                                        % (v, len(before_log), k, len(after_log))})
+        if o.raftCurrentTerm < before_term:
+            self._extra.append({"signature": "restart:term-moved-backwards",
+                                "what": "node %s had term %d before the kill and %d after the restart" % (v, before_term, o.raftCurrentTerm)})
+        self._translate(v, "tick", max(stored_commit, loaded) - 1)
+
     def _commit_rule_coverage(self, v, pre_commit):
         """Which side of the leader's commit rule this tick was on (evaluated on the real attributes)."""
         o = self.sim.objs[v]
-        if o.raftCommitIndex - 1 > pre_commit:
+        if max(o.raftCommitIndex, o.raftLastApplied) - 1 > pre_commit:
             self.cov["commit:advanced"] += 1
             return
         mi = o._SyncObj__raftMatchIndex
@@ -509,6 +618,8 @@ class Tracer(object):
                     self.flags.add("stale-ack")
                 else:
                     self.cov["ack:current-term"] += 1
+                    if a in self.observers:
+                        self.cov["observer:ack-at-leader"] += 1
             else:
                 self.cov["ack:failure-reply"] += 1
         elif t == "append_entries":
@@ -531,8 +642,10 @@ class Tracer(object):
                                       for e in self.effects)
                         if installed:
                             self.cov["snapshot:installed"] += 1
+                            if b in self.observers:
+                                self.cov["observer:snapshot-installed"] += 1
                             self.flags.add("snapshot-installed")
-                            blob = o._SyncObj__serializer._Serializer__inMemorySerializedData
+                            blob = self.blob_of(b)
                             full = self.snapreg.get(blob)
                             if full is None:
                                 self.internal.append("installed snapshot has no registered creator")
@@ -555,6 +668,8 @@ class Tracer(object):
                         ok = any(e[0] == "send" and e[3]["type"] == "next_node_idx" and e[3]["success"]
                                  for e in self.effects)
                         self.cov["append:%s" % ("accepted" if ok else "prev-mismatch")] += 1
+                        if ok and b in self.observers:
+                            self.cov["observer:append-accepted"] += 1
                         if ok and msg.get("transmission") == "finish":
                             self.cov["append:chunked-entry-accepted"] += 1
                             self.flags.add("chunked")
@@ -574,6 +689,8 @@ class Tracer(object):
         found = list(self.watch.step())
         del self.watch.out[:]
         found += self.stepmon.step()
+        found += self._extra
+        self._extra = []
         if len(sim.errors) > self._n_err:
             found += monitors.errors(sim)
             self._n_err = len(sim.errors)
@@ -586,6 +703,7 @@ class Tracer(object):
     def finish(self):
         """End of trace: the full (non-incremental) monitors once more."""
         if not self.with_monitors:
+            self.close()
             return
         sim = self.sim
         found = (monitors.sm_safety(sim) + monitors.sm_state(sim) + monitors.leaders_per_term(sim)
@@ -597,13 +715,15 @@ class Tracer(object):
                 self.violations.append((len(self.events) - 1, dict(v)))
         if len(set(self.leaders_seen)) > 1 or len(self.leaders_seen) > 1:
             self.flags.add("leader-change")
+        self.close()
 
 
 # ------------------------------------------------------------------------------------------------
 # model side: run the driver on the lines of one trace and compare
 # ------------------------------------------------------------------------------------------------
-def diff_nodes(exp, got):
+def diff_nodes(exp, got, N=None):
     out = []
+    N = len(exp) if N is None else N
     for i, (e, g) in enumerate(zip(exp, got)):
         for f in ("term", "voted", "role", "commit", "applied"):
             if e[f] != g[f]:
@@ -617,7 +737,7 @@ def diff_nodes(exp, got):
             out.append({"node": i, "field": "log", "first_difference_at": k, "impl_len": len(e["log"]),
                         "model_len": len(g["log"]), "impl": e["log"][k:k + 4], "model": g["log"][k:k + 4]})
         if e["role"] == LEADER:
-            for j in range(len(exp)):
+            for j in range(N):         # (an observer's matchIndex is dropped when it disconnects; no guard reads it)
                 if j != i and e["match"][j] != g["match"][j]:
                     out.append({"node": i, "field": "match[%d]" % j, "impl": e["match"][j], "model": g["match"][j]})
     if len(exp) != len(got):
@@ -656,9 +776,9 @@ def verify(tr, out=None):
         rep = out[ln]
         evno = tr.line_ev[ln]
         if ln in tr.expect:
-            exp, nm = tr.expect[ln]
+            exp, nm, nv = tr.expect[ln]
             got = json.loads(rep)
-            d = diff_nodes(exp, got["nodes"])
+            d = diff_nodes(exp, got["nodes"], nv)
             if got["nmsgs"] != nm:
                 d.append({"field": "messages-in-flight", "impl": nm, "model": got["nmsgs"]})
             if d:
@@ -684,19 +804,23 @@ def verify(tr, out=None):
 # schedules
 # ------------------------------------------------------------------------------------------------
 def spec_of(tr):
-    return {"voters": tr.voters, "conf": tr.conf, "seed": tr.seed, "events": tr.events}
+    return {"voters": tr.voters, "observers": tr.observers, "journal": tr.journal, "conf": tr.conf, "seed": tr.seed,
+            "events": tr.events}
 
 
 def run_schedule(repo, spec, with_monitors=True, events=None):
     """Replay a stored schedule (events that are not applicable any more are skipped)."""
-    tr = Tracer(repo, spec["voters"], spec["conf"], spec["seed"], with_monitors=with_monitors)
-    for ev in (events if events is not None else spec["events"]):
-        if ev[0] == "submit":
-            ev = ev[:4]
-        if ev[0] in ("tick", "compact", "submit") and ev[1] not in tr.ix:
-            continue
-        tr.event(ev)
-    tr.finish()
+    tr = Tracer(repo, spec["voters"], spec["conf"], spec["seed"], with_monitors=with_monitors,
+                observers=spec.get("observers") or (), journal=spec.get("journal"))
+    try:
+        for ev in (events if events is not None else spec["events"]):
+            if ev[0] == "submit":
+                ev = ev[:4]
+            if ev[0] in ("tick", "compact", "submit", "restart") and ev[1] not in tr.ix:
+                continue
+            tr.event(ev)
+    finally:
+        tr.finish()
     return tr
 
 
@@ -721,6 +845,8 @@ class Director(object):
         self.sim = tr.sim
         self.rng = rng
         self.V = tr.voters
+        self.A = tr.all
+        self.variant = 0
         self.B = tr.conf.get("appendEntriesBatchSizeBytes", 2 ** 16)
         self.seq = 0
         self.held = set()          # channels that are not delivered for now
@@ -760,7 +886,7 @@ class Director(object):
 
     # helpers -------------------------------------------------------------------------------------
     def leader(self, among=None):
-        ls = [v for v in (among or self.V) if self.sim.objs[v]._isLeader()]
+        ls = [v for v in (among or self.V) if v in self.V and self.sim.objs[v]._isLeader()]
         return ls[0] if len(ls) == 1 else None
 
     def channels(self, among=None):
@@ -788,25 +914,29 @@ class Director(object):
 
     def run(self, steps, among=None, dt=0.0625):
         for _ in range(steps):
-            for v in (among or self.V):
+            for v in (among or self.A):
                 self.ev("tick", v, dt)
             self.deliver_all(among)
 
     def elect(self, among=None, max_steps=300, dt=0.0625):
         for _ in range(max_steps):
-            l = self.leader(among)
+            l = self.leader([v for v in among if v in self.V] if among else None)
             if l is not None:
                 return l
             for v in (among or self.V):
                 self.ev("tick", v, dt)
             self.deliver_all(among)
-        return self.leader(among)
+        return self.leader([v for v in among if v in self.V] if among else None)
+
+    def pairs(self, among=None):
+        """connections that exist in a deployment: voter-voter and observer-voter"""
+        ids = among or self.A
+        obs = set(self.tr.observers)
+        return [(a, b) for n, a in enumerate(ids) for b in ids[n + 1:] if not (a in obs and b in obs)]
 
     def connect_all(self, among=None):
-        ids = among or self.V
-        for n, a in enumerate(ids):
-            for b in ids[n + 1:]:
-                self.ev("connect", a, b)
+        for (a, b) in self.pairs(among):
+            self.ev("connect", a, b)
 
     def disconnect(self, a, b):
         self.ev("cut", a, b)
@@ -815,8 +945,8 @@ class Director(object):
 
     def isolate(self, group):
         for a in group:
-            for b in self.V:
-                if b not in group:
+            for b in self.A:
+                if b not in group and not (a in self.tr.observers and b in self.tr.observers):
                     self.disconnect(a, b)
 
 
@@ -827,26 +957,30 @@ def random_trace(d, n_events):
     """Seeded random schedule with phases (slow links, partitions, bursts of submissions)."""
     rng, tr, sim, V = d.rng, d.tr, d.sim, d.V
     N = len(V)
-    pairs = [(a, b) for n, a in enumerate(V) for b in V[n + 1:]]
+    A = d.A
+    pairs = d.pairs()
     rng.shuffle(pairs)
     for (a, b) in pairs:
         if rng.random() < 0.9:
             d.ev("connect", a, b)
     w_deliver = rng.choice([0.45, 0.55, 0.65])
     w_tick = rng.choice([0.2, 0.3])
-    w_net = rng.choice([0.0, 0.01, 0.03, 0.06]) if N > 1 else 0.0
+    w_net = rng.choice([0.0, 0.01, 0.03, 0.06]) if pairs else 0.0
     w_submit = rng.choice([0.04, 0.08, 0.15])
-    w_compact = rng.choice([0.0, 0.01, 0.03])
+    w_compact = rng.choice([0.0, 0.01, 0.03, 0.06])
+    if tr.journal == "journal":
+        w_compact = 0.0      # journal without dump file + compaction: the node cannot re-apply after a restart (finding D17, C06)
+    w_restart = rng.choice([0.005, 0.01, 0.03]) if tr.journal else 0.0
     big_dt = rng.choice([0.03, 0.08, 0.2])
     if rng.random() < 0.5 and N > 1:
-        d.elect(max_steps=60)
+        d.elect(among=A, max_steps=60)
     phase_end = 0
     slow = set()
     while len(tr.events) < n_events:
         if len(tr.events) >= phase_end:
             phase_end = len(tr.events) + rng.randrange(30, 120)
             slow = set()
-            chans = [(a, b) for a in V for b in V if a != b]
+            chans = [(a, b) for (a, b) in pairs] + [(b, a) for (a, b) in pairs]
             for c in chans:
                 if rng.random() < rng.choice([0.0, 0.15, 0.4]):
                     slow.add(c)
@@ -866,13 +1000,13 @@ def random_trace(d, n_events):
                 continue
             r = w_deliver + rng.random() * (1 - w_deliver)
         r -= w_deliver
-        if r < w_tick or N == 1 and r < 0.6:
-            v = rng.choice(V)
+        if r < w_tick or (not pairs) and r < 0.6:
+            v = rng.choice(A)
             dt = rng.choice([1.0, 2.0]) if rng.random() < big_dt * 0.3 else rng.choice(DTS[:10])
             d.ev("tick", v, dt)
             continue
         r -= w_tick
-        if r < w_net:
+        if r < w_net and pairs:
             a, b = rng.choice(pairs)
             k = rng.randrange(6)
             if k == 0:
@@ -889,18 +1023,29 @@ def random_trace(d, n_events):
         r -= w_net
         if r < w_submit:
             l = d.leader()
-            v = l if (l is not None and rng.random() < 0.6) else rng.choice(V)
+            v = l if (l is not None and rng.random() < 0.6) else rng.choice(A)
             cls = rng.choice(["tiny", "tiny", "mid", "mid", "big"])
             for _ in range(1 if rng.random() < 0.6 else rng.randrange(2, 7)):
                 d.submit(v, cls)
             continue
         r -= w_submit
         if r < w_compact:
-            d.ev("compact", rng.choice(V))
+            l = d.leader()
+            d.ev("compact", l if (l is not None and rng.random() < 0.5) else rng.choice(A))
+            continue
+        r -= w_compact
+        if r < w_restart:
+            vs = [rng.choice(V)] if rng.random() < 0.85 else list(V)
+            for v in vs:
+                d.ev("restart", v)
+            for v in vs:
+                for w in A:
+                    if w != v and rng.random() < 0.7:
+                        d.ev("connect", v, w)
             continue
         # default: a tick of the leader (keeps heartbeats flowing) or of anyone
         l = d.leader()
-        v = l if (l is not None and rng.random() < 0.7) else rng.choice(V)
+        v = l if (l is not None and rng.random() < 0.7) else rng.choice(A)
         d.ev("tick", v, rng.choice(DTS[1:8]))
 
 
@@ -1077,19 +1222,30 @@ def sc_snapshot_to_uptodate_follower(d):
         d.run(6)
         return "less than two reset replies in flight"
     d.ev("deliver", F, L)
-    d.held.add((F, L))
+    d.held.add((F, L))               # the second (soon stale) reset and all later replies of F wait
+    lazy = d.variant % 2 == 1        # the follower holds the entries but has not applied them yet
     for _ in range(4):
         d.ev("tick", L, 0.125)
+        d.deliver_all(among=[L] + rest)
         d.drain(L, F)
-        d.ev("tick", F, 0.0625)
-    d.held.discard((F, L))
-    # every reply but the last stale reset ... the channel is FIFO: the stale reset is next
+        if not lazy:
+            d.ev("tick", F, 0.0625)
     d.ev("compact", L)
     d.ev("tick", L, 0.0)
     d.ev("tick", L, 0.0)
+    for _ in range(2):
+        d.submit(L, "tiny")          # entries beyond the snapshot position, replicated and applied
+    for _ in range(4):
+        d.ev("tick", L, 0.125)
+        d.deliver_all(among=[L] + rest)
+        d.drain(L, F)
+        if not lazy:
+            d.ev("tick", F, 0.0625)
+    d.held.discard((F, L))
     d.ev("deliver", F, L)            # stale reset: nextIndex falls behind the compacted prefix
-    d.ev("tick", L, 0.25)
+    d.ev("tick", L, 0.25)            # snapshot burst to a follower that holds more than the snapshot
     d.drain(L, F)
+    d.ev("tick", F, 0.0625)
     d.drain(F, L)
     d.connect_all()
     d.run(8)
@@ -1220,8 +1376,124 @@ def sc_isolated_leader_and_callbacks(d):
     return None
 
 
+def sc_restarts(d):
+    """Journaled voters (journal + dump file) killed and restarted: between granting a vote and the end
+    of the election (C07), as leader, all at once, and between writing a dump and trimming the journal (C06)."""
+    d.connect_all()
+    L = d.elect()
+    if L is None:
+        return "no leader"
+    F, P = [v for v in d.V if v != L][:2]
+    for _ in range(4):
+        d.submit(L, "tiny")
+    d.run(6)
+    # a follower votes, is killed, comes back and is asked again in the same term
+    d.isolate([L])
+    d.ev("tick", F, 2.0)                 # F candidate of term t
+    d.drain(F, P)                        # P grants
+    d.ev("restart", P)
+    d.ev("connect", P, F)
+    d.ev("connect", P, L)
+    d.ev("tick", L, 2.0)                 # old leader falls back / times out later
+    d.ev("tick", L, 2.0)
+    d.deliver_all()
+    d.connect_all()
+    L = d.elect()
+    if L is None:
+        return "no leader after vote restart"
+    for _ in range(3):
+        d.submit(L, "tiny")
+    d.run(6)
+    # dump written, journal not yet trimmed
+    dump = d.tr.journal == "dump"
+    if dump:
+        d.ev("compact", L)
+    d.ev("tick", L, 0.0)
+    d.ev("restart", L)
+    d.connect_all()
+    d.run(4)
+    L = d.elect()
+    if L is None:
+        return "no leader after leader restart"
+    for _ in range(3):
+        d.submit(L, "tiny")
+    d.run(6)
+    if dump:
+        for v in d.V:
+            d.ev("compact", v)
+    d.run(3)
+    d.submit(L, "tiny")
+    d.ev("tick", L, 0.0625)
+    d.deliver_all()
+    for v in d.V:                        # everybody at once
+        d.ev("restart", v)
+    d.connect_all()
+    L = d.elect()
+    if L is None:
+        return "no leader after full restart"
+    d.submit(L, "tiny")
+    d.run(8)
+    return None
+
+
+def sc_observers(d):
+    """Read-only nodes join, leave and re-join, submit commands, and sit with a minority of the voters."""
+    if not d.tr.observers:
+        return "needs observers"
+    O = d.tr.observers
+    for (a, b) in d.pairs(d.V):
+        d.ev("connect", a, b)
+    L = d.elect(among=d.V)
+    if L is None:
+        return "no leader"
+    for o in O:
+        for v in d.V:
+            d.ev("connect", o, v)
+    d.run(4)
+    for o in O:
+        d.submit(o, "tiny")
+    d.run(6)
+    d.submit(L, "mid")
+    d.submit(L, "mid")
+    d.run(4)
+    # the leader with all observers against the other voters: no majority among voters
+    d.isolate([L] + O)
+    d.submit(L, "tiny")
+    d.submit(O[0], "tiny")
+    d.run(5, among=[L] + O)
+    rest = [v for v in d.V if v != L]
+    N = d.elect(among=rest)
+    if N is not None:
+        d.submit(N, "tiny")
+        d.run(5, among=rest)
+    for o in O:
+        d.disconnect(o, L)
+    d.connect_all()
+    d.run(10)
+    d.ev("compact", d.leader() or L)
+    d.run(3)
+    for o in O[:1]:
+        for v in d.V:
+            d.disconnect(o, v)
+    for _ in range(4):
+        l = d.leader()
+        if l is not None:
+            d.submit(l, "tiny")
+        d.run(2)
+    l = d.leader()
+    if l is not None:
+        d.ev("compact", l)
+    d.run(3)
+    d.connect_all()
+    d.run(10)
+    return None
+
+
 SCENARIOS.append(("isolated_leader_and_callbacks", sc_isolated_leader_and_callbacks, 3,
                   {"commandsQueueSize": 3, "commandsWaitLeader": False, "leaderFallbackTimeout": 0.5}))
+SCENARIOS.append(("restarts", sc_restarts, 3, {"logCompactionBatchSize": 32}))
+SCENARIOS.append(("observers", sc_observers, 3, {"logCompactionBatchSize": 32}))
+SCENARIO_OPTS = {"restarts": {"journal": "dump"}, "observers": {"observers": 2}}
 
 
 # ------------------------------------------------------------------------------------------------
@@ -1239,9 +1511,16 @@ def build_item(repo, item, base_seed, n_events):
         N = SIZES[k % len(SIZES)]
         conf = draw_conf(rng)
         conf["appendEntriesUseBatch"] = (k % 2 == 0)
-        tr = Tracer(repo, list(range(N)), conf, base_seed * 100003 + k)
-        random_trace(Director(tr, rng), n_events)
-        tr.finish()
+        n_obs = [0, 0, 0, 1, 0, 0, 2, 0, 3, 0, 0][k % 11]
+        journal = [None, None, "dump", None, None, "journal", None][k % 7]
+        if journal == "dump" and not ENABLE_DUMP_RESTART:
+            journal = "journal"
+        tr = Tracer(repo, list(range(N)), conf, base_seed * 100003 + k, observers=list(range(N, N + n_obs)),
+                    journal=journal)
+        try:
+            random_trace(Director(tr, rng), n_events)
+        finally:
+            tr.finish()
         return tr
     if item[0] == "scenario":
         name, k = item[1], item[2]
@@ -1252,14 +1531,23 @@ def build_item(repo, item, base_seed, n_events):
             conf["appendEntriesUseBatch"] = False
         if k >= 2:
             N = max(N, [3, 5, 4][k % 3]) if name != "old_term_entry" else N
-        tr = Tracer(repo, list(range(N)), conf, base_seed * 100003 + 7919 * k)
-        d = Director(tr, rng)
-        note = fn(d)
-        if note:
-            tr.cov["scenario-not-reached:%s" % name] += 1
-        if k >= 1:
-            random_trace(d, len(tr.events) + n_events // 3)      # continue from the reached state
-        tr.finish()
+        opts = SCENARIO_OPTS.get(name, {})
+        n_obs = opts.get("observers", 0)
+        if name == "observers" and k % 3 == 2:
+            n_obs = 3
+        tr = Tracer(repo, list(range(N)), conf, base_seed * 100003 + 7919 * k,
+                    observers=list(range(N, N + n_obs)),
+                    journal=("journal" if opts.get("journal") == "dump" and not ENABLE_DUMP_RESTART else opts.get("journal")))
+        try:
+            d = Director(tr, rng)
+            d.variant = k
+            note = fn(d)
+            if note:
+                tr.cov["scenario-not-reached:%s" % name] += 1
+            if k >= 1:
+                random_trace(d, len(tr.events) + n_events // 3)      # continue from the reached state
+        finally:
+            tr.finish()
         return tr
     if item[0] == "corpus":
         ent = json.load(open(item[1]))
@@ -1380,7 +1668,7 @@ def corpus_store(kind, cls, spec, what):
 
 
 FLOORS_ACTIONS = ["timeout", "recvReqVote", "recvVote", "clientAppend", "sendAppend", "recvAppend", "recvAck",
-                  "advanceCommit", "stepDown", "apply", "observeTerm", "sendSnapshot", "recvSnapshot", "lose"]
+                  "advanceCommit", "stepDown", "apply", "observeTerm", "sendSnapshot", "recvSnapshot", "lose", "restart"]
 FLOORS_COV = ["vote:granted", "vote:denied", "voteReply:counted", "voteReply:ignored", "append:accepted",
               "append:prev-mismatch", "append:stale-term", "append:non-final", "append:chunked-entry-accepted",
               "ack:current-term", "ack:ignored-not-leader", "ack:ignored-other-term", "snapshot:installed",
@@ -1392,13 +1680,13 @@ FLOORS_FLAGS = {"leader-change": 3, "truncation": 1, "chunked": 1, "snapshot-ins
 
 def plan(ctx):
     quick = ctx.tier == "quick"
-    n_events = 300 if quick else 1200
+    n_events = 400 if quick else 1200
     items = [("corpus", f) for f in corpus_files()]
     reps = 2 if quick else 12
     for (name, _, _, _) in SCENARIOS:
         for k in range(reps):
             items.append(("scenario", name, k))
-    for k in range(40 if quick else 1600):
+    for k in range(120 if quick else 2400):
         items.append(("random", k))
     return items, n_events
 
@@ -1497,7 +1785,7 @@ def assemble(ctx, results, t0, planned):
                 "delivered": dict((k[8:], cov[k]) for k in sorted(cov) if k.startswith("deliver:")),
                 "branches": dict((k, cov[k]) for k in sorted(cov) if k.split(":")[0] in
                                  ("vote", "voteReply", "append", "ack", "snapshot", "commit", "send", "real", "callback",
-                                  "scenario-not-reached")),
+                                  "scenario-not-reached", "observer", "restart")),
                 "traces_with": dict(flags)}
     res = {"name": "corr.core_trace", "cases": len(results) - len(errors), "distinct": len(hashes),
            "coverage": coverage, "samples": [], "disagreements": disagreements, "violations": violations,
@@ -1513,6 +1801,8 @@ def assemble(ctx, results, t0, planned):
     missing += [c for c in FLOORS_COV if cov[c] == 0]
     missing += ["traces-with-%s<%d" % (f, n) for f, n in FLOORS_FLAGS.items() if flags[f] < n]
     missing += ["cluster-size-%d" % n for n in (1, 2, 3, 4, 5) if sizes[str(n)] == 0]
+    missing += [c for c in ("observer:append-accepted", "observer:ack-at-leader", "observer:submit",
+                            "restart:from-journal-start") if cov[c] == 0]
     missing += ["append-mode-%s" % m for m in ("batch", "single") if modes[m] == 0]
     if missing and not disagreements and not violations:
         res["inconclusive"] = "coverage floor missed: " + ", ".join(missing[:12])
@@ -1520,27 +1810,17 @@ def assemble(ctx, results, t0, planned):
 
 
 def search(ctx, unproved):
-    """Look for a concrete failing input on the REAL code: more and longer random schedules with the
+    """Look for a concrete failing input on the REAL code: more and longer schedules (other seeds) with the
     property monitors only (no model involved)."""
     t0 = time.time()
     budget = 40.0 if ctx.tier == "quick" else 240.0
     found = {}
     k = 0
-    import random as _random
+    names = [x[0] for x in SCENARIOS]
     while time.time() - t0 < budget and len(found) < 3:
         k += 1
-        rng = _random.Random("%d/core_trace/search/%d" % (ctx.seed, k))
-        N = SIZES[k % len(SIZES)]
-        tr = Tracer(ctx.repo, list(range(N)), draw_conf(rng), ctx.seed * 7 + k)
-        if k % 4 == 0:
-            (name, fn, n2, conf) = SCENARIOS[(k // 4) % len(SCENARIOS)]
-            tr = Tracer(ctx.repo, list(range(n2)), conf, ctx.seed * 7 + k)
-            d = Director(tr, rng)
-            fn(d)
-        else:
-            d = Director(tr, rng)
-        random_trace(d, len(tr.events) + 1500)
-        tr.finish()
+        item = ("scenario", names[(k // 4) % len(names)], 1 + k % 5) if k % 4 == 0 else ("random", k)
+        tr = build_item(ctx.repo, item, ctx.seed + 7777, 1500)
         for (evno, v) in tr.violations:
             if v["signature"] not in found:
                 spec = shrink(ctx.repo, spec_of(tr), v["signature"], "violation", evno, budget_s=15.0)
